@@ -2,6 +2,8 @@ import PEval.Lemmas.AnalyzerRates
 import PEval.Lemmas.AnalyzerErrors
 import PEval.Lemmas.AnalyzerAreas
 import PEval.Lemmas.AnalyzerPassFail
+import PEval.Lemmas.AnalyzerDT
+import PEval.Gen.AnalyzerDT
 /-!
 # C19 — analysis tables are a faithful tabulation of the frame results
 
@@ -506,5 +508,159 @@ example : (generateAreaPoints 9 96 48).map (fun a => (getAreaIdx a 40 (-20), get
     .ok (.ok (some 6), .ok none) := by decide +kernel
 
 end Examples
+
+/-! ## tie to the source: decision tables extracted from the real code (regenerated on every run)
+
+`harness/dt_c19.py` runs the REAL `tool/utils.get_area_idx` (on the grid the REAL `generate_area_points` builds from symbolic
+bounds) and the REAL `PerceptionAnalyzer3D.add` on symbolic inputs, over every assignment of the decision atoms they query
+(`PEval/Gen/AnalyzerDT.lean`).  `AnalyzerDT.areaSkel` / `rowsSkel` are the hand-written skeletons of the model over the same
+atoms; `DT.agree` decides, completely for the finite decision space and by kernel evaluation, that table and skeleton give
+the same result under EVERY valuation (order atoms of different grid lines are treated as independent: an
+over-approximation of the input space).  A shape the translator cannot follow has `tree = none` (the statements are vacuous
+for it; the evidence says so and the correspondence runs carry the tie alone). -/
+section Table
+open PEval.DT PEval.AnalyzerDT
+
+def skelOfKey (k1 k2 : Nat) : DTree := if k1 = 0 then areaSkel (divisionsOf k2) else rowsSkel k2
+def atomsOfKey (k1 k2 : Nat) (v : Val) : Res := if k1 = 0 then areaAtoms (divisionsOf k2) v else rowsAtoms k2 v
+
+def analyzerTablesOk : Bool :=
+  Gen.AnalyzerDT.tables.all fun row =>
+    match row.2.2 with
+    | some t => agree [] [] t (skelOfKey row.1 row.2.1) PA.empty
+    | none => true
+
+/-- THE per-run obligation: the checker accepts every regenerated table -/
+theorem analyzer_table_check : analyzerTablesOk = true := by decide +kernel
+
+/-- the code's decision tables (area index: 1, 3, 9 divisions; row status: every frame shape with at most two items) equal
+the model's skeletons under every valuation of the atoms -/
+theorem analyzer_code_table_eq_model :
+    ∀ row ∈ Gen.AnalyzerDT.tables, ∀ t, row.2.2 = some t → ∀ v : Val, eval t v = atomsOfKey row.1 row.2.1 v := by
+  intro row hrow t ht v
+  have h := analyzer_table_check
+  unfold analyzerTablesOk at h
+  rw [List.all_eq_true] at h
+  have h2 := h row hrow
+  rw [ht] at h2
+  rw [agree_sound h2 v (by simp [consistent])]
+  unfold skelOfKey atomsOfKey
+  split
+  · exact eval_areaSkel _ v
+  · exact eval_rowsSkel _ v
+
+/-- the CODE's area table, read at the order atoms of a concrete input (positive bounds, ego-frame position `(x, y)`), is
+the MODEL's `getAreaIdx` on the MODEL's `generateAreaPoints` grid -/
+theorem area_code_table_eq_getAreaIdx {key : Nat} {t : DTree} (ht : (0, key, some t) ∈ Gen.AnalyzerDT.tables)
+    (hn : divisionsOf key = 1 ∨ divisionsOf key = 3 ∨ divisionsOf key = 9)
+    (mX mY x y : Rat) (_hX : 0 < mX) (_hY : 0 < mY) :
+    eval t (areaValuation mX mY x y) = areaResOfModel (divisionsOf key) mX mY x y := by
+  rw [analyzer_code_table_eq_model _ ht t rfl]
+  simp only [atomsOfKey, if_true]
+  exact areaAtoms_valuation _ hn mX mY x y
+
+/-- C19's area clause for the code's table: the table never answers with an exception; an index `i` means the ego-frame
+position lies strictly inside rectangle `i` of the grid; `None` means it lies strictly inside no rectangle -/
+theorem table_area_spec {key : Nat} {t : DTree} (ht : (0, key, some t) ∈ Gen.AnalyzerDT.tables)
+    (hn : divisionsOf key = 1 ∨ divisionsOf key = 3 ∨ divisionsOf key = 9)
+    (mX mY x y : Rat) (hX : 0 < mX) (hY : 0 < mY) :
+    ∃ a, generateAreaPoints (divisionsOf key) mX mY = .ok a ∧
+      (∀ e, eval t (areaValuation mX mY x y) ≠ .raise e) ∧
+      (∀ i, eval t (areaValuation mX mY x y) = .other (i + 1) →
+        ∃ ur bl, a.upperRights[i]? = some ur ∧ a.bottomLefts[i]? = some bl ∧ bl.1 < x ∧ x < ur.1 ∧ ur.2 < y ∧ y < bl.2) ∧
+      (eval t (areaValuation mX mY x y) = .other 0 → ∀ (i : Nat) (ur bl : Rat × Rat), a.upperRights[i]? = some ur →
+        a.bottomLefts[i]? = some bl → insideArea ur bl x y = false) := by
+  rw [area_code_table_eq_getAreaIdx ht hn mX mY x y hX hY]
+  obtain ⟨a, ha⟩ : ∃ a, generateAreaPoints (divisionsOf key) mX mY = .ok a := by
+    rcases hn with h | h | h <;> rw [h] <;> simp [generateAreaPoints]
+  refine ⟨a, ha, ?_⟩
+  have hu := (area_idx_unique _ mX mY x y a ha).2.1
+  have hs := area_idx_inside a x y
+  have hm : areaResOfModel (divisionsOf key) mX mY x y =
+      (match areaOf a x y with | none => Res.other 0 | some i => Res.other (i + 1)) := by
+    unfold areaResOfModel
+    rw [ha]
+    simp only [hu]
+    cases areaOf a x y <;> rfl
+  rw [hm]
+  cases hof : areaOf a x y with
+  | none =>
+    refine ⟨fun e h => (by cases h), fun i h => (by cases h), fun _ => hs.2 (by rw [hu, hof])⟩
+  | some j =>
+    refine ⟨fun e h => (by cases h), fun i h => ?_, fun h => (by cases h)⟩
+    have : j = i := by injection h with h; omega
+    subst this
+    exact hs.1 j (by rw [hu, hof])
+
+/-- a position exactly ON a grid line (x on a line of the x-grid: the outer lines, and the inner ones for 3 / 9 divisions;
+likewise y, inner lines for 9 divisions) is answered `None` by the code's table — the guard the seeded `np.any(..) is False`
+turns into a `ValueError` -/
+theorem table_on_grid_line {key : Nat} {t : DTree} (ht : (0, key, some t) ∈ Gen.AnalyzerDT.tables)
+    (hn : divisionsOf key = 1 ∨ divisionsOf key = 3 ∨ divisionsOf key = 9)
+    (mX mY : Rat) (hX : 0 < mX) (hY : 0 < mY) (k : Nat) :
+    (divisionsOf key ≠ 1 ∨ k = 0 ∨ 3 ≤ k → ∀ y, eval t (areaValuation mX mY (lineVal mX k) y) = .other 0) ∧
+    (divisionsOf key = 9 ∨ k = 0 ∨ 3 ≤ k → ∀ x, eval t (areaValuation mX mY x (lineVal mY k)) = .other 0) := by
+  constructor
+  · intro hg y
+    rw [area_code_table_eq_getAreaIdx ht hn mX mY _ y hX hY]
+    exact model_on_x_line _ hn mX mY y hX k hg
+  · intro hg x
+    rw [area_code_table_eq_getAreaIdx ht hn mX mY x _ hX hY]
+    exact model_on_y_line _ hn mX mY x hY k hg
+
+/-- the CODE's row-status table, for every tabulated frame shape and every assignment of its atoms, is the number computed
+from the MODEL's `Analyzer.add` run on index objects (item `j` has estimate `e<j>`, ground truth `g<j>`) -/
+theorem rows_code_table_eq_model {key : Nat} {t : DTree} (ht : (1, key, some t) ∈ Gen.AnalyzerDT.tables)
+    (hk : key ∈ rowKeys) (b : Bool × Bool × Bool × Bool) (hb : b ∈ allBits) :
+    eval t (valOfBits b) = rowsModel key (valOfBits b) := by
+  rw [analyzer_code_table_eq_model _ ht t rfl]
+  simp only [atomsOfKey, show ¬ ((1 : Nat) = 0) by decide, if_false]
+  have h := rows_skel_eq_model key hk
+  unfold rowsSkelOk at h
+  rw [List.all_eq_true] at h
+  exact beq_iff_eq.mp (h b hb)
+
+/-- C19's row clause for the code's table: the DataFrame the table describes is the model's, whose rows are — forgetting the
+index — exactly one pair per TP result, FP result, TN object and FN object of the frame (`frame_block`), numbered 0, 1, … -/
+theorem table_rows_per_item {key : Nat} {t : DTree} (ht : (1, key, some t) ∈ Gen.AnalyzerDT.tables)
+    (hk : key ∈ rowKeys) (b : Bool × Bool × Bool × Bool) (hb : b ∈ allBits) :
+    let T := (addAll (fun _ _ => some 0) [[frameOf key (valOfBits b)]]).table
+    eval t (valOfBits b) = .other (tableCode T) ∧
+    T.map RowPair.strip = frameItems (fun _ _ => some 0) 0 (frameOf key (valOfBits b)) ∧
+    T.map (·.index) = List.range T.length := by
+  refine ⟨rows_code_table_eq_model ht hk b hb, ?_, index_range _ _⟩
+  have := (rows_per_item (fun _ _ => some 0) [[frameOf key (valOfBits b)]]).1
+  simpa [allItemsFrom, sceneItems] using this
+
+/-- readable instances: one TP result and one GT-less FP result give the rows (TP, TP) of item 0 and (all-None, FP) of
+item 1; one FN object gives (FN, all-None); one TN object (TN, all-None) -/
+theorem table_rows_examples {t4 t27 t9 : DTree} (h4 : (1, 4, some t4) ∈ Gen.AnalyzerDT.tables)
+    (h27 : (1, 27, some t27) ∈ Gen.AnalyzerDT.tables) (h9 : (1, 9, some t9) ∈ Gen.AnalyzerDT.tables) :
+    eval t4 (valOfBits (false, false, true, false)) = .other ((rowDigit 1 1 0 + 1) + (rowDigit 0 2 1 + 1) * 64) ∧
+    eval t4 (valOfBits (false, false, false, false)) = .other ((rowDigit 1 1 0 + 1) + (rowDigit 2 2 1 + 1) * 64) ∧
+    (∀ v, eval t27 v = .other (rowDigit 4 0 0 + 1)) ∧ (∀ v, eval t9 v = .other (rowDigit 3 0 0 + 1)) := by
+  refine ⟨?_, ?_, fun v => ?_, fun v => ?_⟩
+  · rw [analyzer_code_table_eq_model _ h4 t4 rfl]
+    show rowsAtoms 4 (valOfBits (false, false, true, false)) = _
+    decide +kernel
+  · rw [analyzer_code_table_eq_model _ h4 t4 rfl]
+    show rowsAtoms 4 (valOfBits (false, false, false, false)) = _
+    decide +kernel
+  · rw [analyzer_code_table_eq_model _ h27 t27 rfl]
+    show rowsAtoms 27 v = _
+    rfl
+  · rw [analyzer_code_table_eq_model _ h9 t9 rfl]
+    show rowsAtoms 9 v = _
+    rfl
+
+/-- non-vacuity: the skeleton on concrete atoms (9 divisions of a 96 × 48 field: (40, -20) lies in area 6, (32, 0) on a
+grid line in none), the tables exist, and the checker distinguishes skeletons -/
+example : areaAtoms 9 (areaValuation 96 48 40 (-20)) = .other 7 ∧ areaAtoms 9 (areaValuation 96 48 32 0) = .other 0 := by
+  decide +kernel
+example : agree [] [] (areaSkel 3) (areaSkel 3) PA.empty = true := by decide +kernel
+example : agree [] [] (areaSkel 3) (areaSkel 9) PA.empty = false := by decide +kernel
+example : agree [] [] (rowsSkel 4) (rowsSkel 10) PA.empty = false := by decide +kernel
+
+end Table
 
 end PEval.C19
